@@ -208,6 +208,7 @@ def server_init_multi(E):
 
 def get_units():
     us = [
+        S.default_blocks_unit('C18'),
         Unit('C18/seq.validate', seq_validate, ['C18'], functions=[S.SEQ + '.validate']),
         Unit('C18/seq.getValues', seq_get, ['C18'], functions=[S.SEQ + '.getValues', S.SEQ + '.validate']),
         Unit('C18/seq.setValues', seq_set, ['C18'], functions=[S.SEQ + '.setValues', S.SEQ + '.getValues', S.SEQ + '.validate']),
